@@ -192,11 +192,12 @@ PROPS = {
         'assumptions': ['monotone clock (time.Now / time.Since)'],
     },
     'C10': {
-        'lean_targets': ['Cqos.Props.C10', 'Cqos.Facts.C10', 'Cqos.Facts.GlueJoin', 'Cqos.Facts.CtorsJoin'],
+        'lean_targets': ['Cqos.Props.C10', 'Cqos.Props.C10r', 'Cqos.Facts.C10', 'Cqos.Facts.GlueJoin', 'Cqos.Facts.CtorsJoin'],
         'facts': True,
         'theorems': ['Cqos.C10.c10_interval_v2', 'Cqos.C10.c10_interval_v2_nonpositive', 'Cqos.C10.c10_interval_v2_errors',
                      'Cqos.C10.c10_interval_v1', 'Cqos.C10.f_step', 'Cqos.C10.f_run', 'Cqos.C10.c10_passAt_le_oldest',
-                     'Cqos.C10.c10_flush', 'Cqos.Facts.c10_one_ticker', 'Cqos.Facts.glueJoin', 'Cqos.Facts.ctorsJoin'],
+                     'Cqos.C10.c10_flush', 'Cqos.C10.k_step', 'Cqos.C10.r_run', 'Cqos.C10.c10_residence', 'Cqos.C10.c10_residence_div',
+                     'Cqos.Facts.c10_one_ticker', 'Cqos.Facts.glueJoin', 'Cqos.Facts.ctorsJoin'],
         'runs': [{'cmd': 'pure', 'args': ['-family', 'c10']}, {'cmd': 'jstepper', 'args': ['-family', 'mixed']},
                  {'cmd': 'blackbox', 'args': ['-scenario', 'join,joinshared']}],
         'monitor_prefix': ['C10'],
@@ -205,9 +206,12 @@ PROPS = {
                        '1 <= floor(100/inacc) <= 100 (v1: tau >= 10ms) and the errors are exactly the code\'s; for every action list '
                        'with non-decreasing clock readings passAt is never later than the acceptance of the oldest buffered element '
                        '(the timer is not reset per element), hence a ticker firing processed at a reading >= firstAt + Timeout '
-                       'flushes the buffer. calcInterruptInterval is tied by a full grid over inaccuracies 0..300 x boundary timeouts'),
-        'level_note': ('partial: the bound Timeout*(1+1/floor(100/inacc)) + latency additionally needs the ticker to fire every tau and a '
-                       'ready consumer - Go runtime facts, hypotheses here; ' + 'trusted: the stepper correspondence for process/pass/isTimeouted; the select loops and the deferred pass are covered by black-box runs and the regenerated skeleton facts'),
+                       'flushes the buffer; composed over runs (c10_residence): along every run in which a ticker firing is processed at '
+                       'least every tau, the oldest element inside the discipline was accepted less than Timeout + tau ago, i.e. less than '
+                       'Timeout*(1+1/floor(100/inacc)) (c10_residence_div), for every arrival pattern, JoinSize, copy/no-copy, join/unite/v1. '
+                       'calcInterruptInterval is tied by a full grid over inaccuracies 0..300 x boundary timeouts'),
+        'level_note': ('partial: the bound is proved under the hypothesis that a ticker firing is processed at least every tau (the ticker '
+                       'fires, the goroutine is scheduled, the consumer is ready) - Go runtime facts, the hypothesis denseRun of c10_residence; ' + 'trusted: the stepper correspondence for process/pass/isTimeouted; the select loops and the deferred pass are covered by black-box runs and the regenerated skeleton facts'),
         'rule': 'calcInterruptInterval (v2 join, v2 unite, v1 join) over all inaccuracies 0..300 x boundary timeouts + random; stepper tick scripts',
         'trusted_base': [],
         'assumptions': ['ticker fires every interruptInterval; scheduling latency bounded; monotone clock'],
@@ -252,10 +256,11 @@ PROPS = {
         'assumptions': ['ClockOK: monotone clock, Sleep(d) lasts at least d'],
     },
     'C12': {
-        'lean_targets': ['Cqos.Props.C12', 'Cqos.Facts.GlueLimit', 'Cqos.Facts.CtorsLimit'],
+        'lean_targets': ['Cqos.Props.C12', 'Cqos.Props.C12u', 'Cqos.Facts.GlueLimit', 'Cqos.Facts.CtorsLimit'],
         'facts': True,
         'theorems': ['Cqos.C12.lstep_inv', 'Cqos.C12.lrun_inv', 'Cqos.C12.c12_passthrough', 'Cqos.C12.c12_close',
-                     'Cqos.C12.c12_no_pause_small', 'Cqos.C12.c12_sleep_count', 'Cqos.Facts.glueLimit', 'Cqos.Facts.ctorsLimit'],
+                     'Cqos.C12.c12_no_pause_small', 'Cqos.C12.c12_sleep_count', 'Cqos.C12.u_step', 'Cqos.C12.c12_item_upper',
+                     'Cqos.C12.c12_item_window', 'Cqos.Facts.glueLimit', 'Cqos.Facts.ctorsLimit'],
         'runs': [{'cmd': 'lstepper', 'args': ['-family', 'mixed']},
                  {'cmd': 'blackbox', 'args': ['-scenario', 'limit']}],
         'monitor_prefix': ['C12'],
@@ -263,9 +268,11 @@ PROPS = {
         'level_text': ('Lean theorems on the limit machine for every action list: the sent elements are always an in-order prefix of '
                        'the received ones and exactly them at termination; termination happens only through a receive that reports '
                        'the input closed and empty; fewer than Quantity elements cause no sleep at all; exactly one sleep of at most '
-                       'Interval per completed batch of Quantity elements. Tied by the stepper on pass()/delay()'),
-        'level_note': ('partial: "within about ceil(N/Quantity) intervals" additionally needs Sleep not to oversleep - a runtime fact '
-                       'checked with slack by the black-box runs, not proved'),
+                       'Interval per completed batch of Quantity elements; upper bound (c12_item_upper): along every run in which every clock '
+                       'reading is at most eps after the previous one and Sleep oversleeps at most eps, with (Quantity+1)*eps <= Interval, the '
+                       'i-th element leaves no later than t0 + floor(i/Quantity)*(Interval+2eps) + (Quantity+1)*eps. Tied by the stepper on pass()/delay()'),
+        'level_note': ('partial: "within about ceil(N/Quantity) intervals" is proved under the hypothesis promptRun (elements available, consumer '
+                       'ready, Sleep oversleeps at most eps) - a runtime fact, checked with slack by the black-box runs'),
         'rule': 'as C04',
         'trusted_base': ['verif hook stepper for limit'],
         'assumptions': [],
@@ -277,7 +284,7 @@ PROPS = {
                      'Cqos.C02.c02_subsequence', 'Cqos.C02.c02_tag', 'Cqos.C02.c02_simple', 'Cqos.Facts.gluePrioV2', 'Cqos.Facts.gluePrioV1', 'Cqos.C01.c02_simple_v2'],
         'runs': [{'cmd': 'stepper', 'args': ['-family', 'mixed']}, {'cmd': 'stepper', 'args': ['-family', 'terminate']},
                  {'cmd': 'stepper', 'args': ['-family', 'dynamic']},
-                 {'cmd': 'blackbox', 'args': ['-scenario', 'prio2,prio1']}],
+                 {'cmd': 'blackbox', 'args': ['-scenario', 'prio2,prio1,dynamic']}],
         'monitor_prefix': ['C02'],
         'level': 'proof',
         'level_text': ('Lean theorems on the history variables of the scheduler machine (arrived, taken, delivered, dropped) for every '
@@ -412,11 +419,12 @@ PROPS = {
         'assumptions': ['saturation as a property of the action list (pollEmpty / pollClosed never occur)'],
     },
     'C06': {
-        'lean_targets': ['Cqos.Props.C06', 'Cqos.Props.C16', 'Cqos.Facts.GluePrioV2', 'Cqos.Props.C06d'],
+        'lean_targets': ['Cqos.Props.C06', 'Cqos.Props.C16', 'Cqos.Facts.GluePrioV2', 'Cqos.Props.C06d', 'Cqos.Props.C06i'],
         'facts': True,
         'theorems': ['Cqos.C06.c06_calc_idle', 'Cqos.C06.calc_wait_busy', 'Cqos.C06.w_step', 'Cqos.C06.c06_never_waits_idle',
                      'Cqos.C06.c06_head_served', 'Cqos.C06.c06_recalc_alone', 'Cqos.C06.c06_v1_zero_share_starves',
-                     'Cqos.C15.c15_drain_progress', 'Cqos.C16.c16_exit_bound', 'Cqos.Facts.gluePrioV2', 'Cqos.C06.poll_enabled', 'Cqos.C06.c06_no_deadlock'],
+                     'Cqos.C15.c15_drain_progress', 'Cqos.C16.c16_exit_bound', 'Cqos.Facts.gluePrioV2', 'Cqos.C06.poll_enabled', 'Cqos.C06.c06_no_deadlock',
+                     'Cqos.C06.skip_one', 'Cqos.C06.c06_phase1_delivers', 'Cqos.C06.v2_inputs_own_chan', 'Cqos.C06.c06_idle_delivers'],
         'runs': [{'cmd': 'stepper', 'args': ['-family', 'single']}, {'cmd': 'stepper', 'args': ['-family', 'mixed']},
                  {'cmd': 'stepper', 'args': ['-family', 'terminate']},
                  {'cmd': 'blackbox', 'args': ['-scenario', 'alone']}],
@@ -427,10 +435,13 @@ PROPS = {
                        'turn of a priority with data and a positive allotment comes, delivering its oldest item is enabled while skipping / '
                        'giving up is not; a priority alone in having data receives the whole unused remainder in the second phase; '
                        'deadlock freedom: in every reachable non-terminated state either one of the discipline\'s own actions is '
-                       'enabled or it waits for a release while a handler still holds an item (c06_no_deadlock). The '
+                       'enabled or it waits for a release while a handler still holds an item (c06_no_deadlock); run-composed progress '
+                       '(c06_idle_delivers): in every reachable v2 state about to compute a round with nothing in flight, the head item of '
+                       'every undrained input with data is delivered by calcTactic and at most H+n poll actions of the discipline alone, '
+                       'with no release and no other environment action. The '
                        'stepper reports blocked-with-nothing-in-flight and single-active-priority under-occupation exactly (no timing)'),
-        'level_note': ('partial: the eventuality (every item is eventually delivered) additionally needs fairness of the Go scheduler and of '
-                       'the handlers, which is not modelled; v1 accepts zero-share configurations and starves them - known finding F1'),
+        'level_note': ('partial: c06_idle_delivers shows the delivery is reachable by the discipline\'s own steps alone (no release needed); that the '
+                       'steps are actually taken needs fairness of the Go scheduler and a handler receiving from the output, which is not modelled; v1 accepts zero-share configurations and starves them - known finding F1'),
         'rule': 'stepper families single (one active priority), mixed, terminate; monitors: waits-with-nothing-in-flight, alone-not-granted-all',
         'trusted_base': [],
         'assumptions': ['handlers eventually release; Go schedules the discipline goroutine'],
